@@ -3,7 +3,10 @@ package props
 import (
 	"bytes"
 	"fmt"
+	"github.com/ontio/ontology/common/simhook"
 	"sort"
+	"sync"
+	"testing/synctest"
 	"time"
 
 	"github.com/anishathalye/porcupine"
@@ -470,10 +473,14 @@ func newC37Table(c *simkit.Ctx, w *c37World, sig string) *c37Table {
 
 func runC37(c *simkit.Ctx) {
 	t := c.Tape
-	concurrent := t.Choose(3) == 2
+	variant := t.Choose(4)
 	w := c37Pool(c)
-	if concurrent {
+	if variant == 2 {
 		runC37Concurrent(c, w)
+		return
+	}
+	if variant == 3 {
+		runC37Parallel(c, w)
 		return
 	}
 	tb := newC37Table(c, w, "sequential")
@@ -629,27 +636,7 @@ func runC37Concurrent(c *simkit.Ctx, w *c37World) {
 			c.Logf("t%d return %s", k, tk.name)
 		}
 	}
-	model := porcupine.Model{
-		Init: func() interface{} { return c37Model{nb: 1} },
-		Step: func(state, input, output interface{}) (bool, interface{}) {
-			m, in, out := state.(c37Model), input.(c37In), output.(c37Out)
-			switch in.kind {
-			case 0:
-				ok, next := w.update(m, in.peer)
-				return ok == out.ok, next
-			case 1:
-				m.mask &^= 1 << uint(in.peer)
-				return true, m
-			case 2:
-				return w.nearestOK(m, in.target, in.count, out.got) == "", m
-			case 3:
-				return out.ok == (m.mask&(1<<uint(in.peer)) != 0), m
-			default:
-				return out.n == w.size(m), m
-			}
-		},
-		Equal: func(a, b interface{}) bool { return a.(c37Model) == b.(c37Model) },
-	}
+	model := c37LinModel(w)
 	overlaps := 0
 	for i := range history {
 		for j := i + 1; j < len(history); j++ {
@@ -671,5 +658,160 @@ func runC37Concurrent(c *simkit.Ctx, w *c37World) {
 	c.State("conc", w.bs, tb.m.nb, tb.m.mask)
 	if tb.m.nb > 1 && (rejected > 0 || removed > 0) && overlaps > 0 {
 		c.NonTrivial()
+	}
+}
+
+// ---- parallel variant: real goroutines, the tape decides who gets the table lock
+
+type c37PTask struct {
+	id   int
+	ops  []c37In
+	step int
+	done bool
+}
+
+// runC37Parallel: 2..3 goroutines call the real table concurrently. Every
+// acquisition of the table lock is a scheduling point (hook H9): the calling
+// goroutine parks there and the tape decides which one goes on, so whatever a
+// caller computed before taking the lock can be overtaken by another caller's
+// complete operation. The recorded (invoke, return) history must be
+// linearizable against the model and the structure must be valid at the end.
+func runC37Parallel(c *simkit.Ctx, w *c37World) {
+	c.Bubble(func() {
+		t := c.Tape
+		tb := newC37Table(c, w, "parallel")
+		ntasks := 2 + t.Choose(2)
+		sched := &c36Sched{}
+		var gids sync.Map
+		var mu sync.Mutex
+		var history []porcupine.Operation
+		clock := int64(0)
+		tick := func() int64 { mu.Lock(); defer mu.Unlock(); clock++; return clock }
+		tasks := make([]*c37PTask, ntasks)
+		for i := range tasks {
+			tk := &c37PTask{id: i}
+			for n := 2 + t.Choose(7); n > 0; n-- {
+				in := c37In{kind: t.Pick(8, 3, 2, 2, 1)}
+				switch in.kind {
+				case 0, 1, 3:
+					in.peer = t.Choose(len(w.pool))
+				case 2:
+					in.target, _ = w.target(t)
+					in.count = t.Choose(len(w.pool) + 2)
+				}
+				tk.ops = append(tk.ops, in)
+			}
+			tasks[i] = tk
+		}
+		simhook.YieldFn = func(site string, a, b int) {
+			v, ok := gids.Load(simkit.GoID())
+			if !ok {
+				return
+			}
+			tk := v.(*c37PTask)
+			tk.step++
+			sched.park(tk.id, 0, tk.step, "lock", nil)
+		}
+		c.Defer(func() { simhook.YieldFn = nil })
+		for _, tk := range tasks {
+			tk := tk
+			go func() {
+				gids.Store(simkit.GoID(), tk)
+				for _, in := range tk.ops {
+					tk.step++
+					sched.park(tk.id, 0, tk.step, "invoke", nil)
+					call := tick()
+					var out c37Out
+					switch in.kind {
+					case 0:
+						err := tb.rt.Update(w.peers[in.peer], c37Addr(in.peer))
+						out.ok = err == nil
+					case 1:
+						tb.rt.Remove(w.peers[in.peer])
+					case 2:
+						for _, p := range tb.rt.NearestPeers(c37Peer(in.target), in.count) {
+							out.got = append(out.got, tb.idx(p.ID))
+						}
+						out.ids = fmt.Sprint(out.got)
+					case 3:
+						_, out.ok = tb.rt.Find(w.peers[in.peer])
+					default:
+						out.n = tb.rt.Size()
+					}
+					ret := tick()
+					mu.Lock()
+					history = append(history, porcupine.Operation{ClientId: tk.id, Input: in, Call: call, Output: out, Return: ret})
+					mu.Unlock()
+				}
+				mu.Lock()
+				tk.done = true
+				mu.Unlock()
+			}()
+		}
+		steps := 0
+		for ; steps < 4000; steps++ {
+			synctest.Wait()
+			en, _ := sched.enabledGates()
+			if len(en) == 0 {
+				break
+			}
+			g := en[t.Choose(len(en))]
+			c.Logf("s%d T%d %s", steps, g.task, g.kind)
+			sched.release(g)
+		}
+		synctest.Wait()
+		for _, tk := range tasks {
+			if !tk.done {
+				c.Harness("c37 parallel: task %d did not finish in %d steps", tk.id, steps)
+			}
+		}
+		simhook.YieldFn = nil
+		tb.checkInvariants("the parallel operations", false)
+		overlaps := 0
+		for i := range history {
+			for j := i + 1; j < len(history); j++ {
+				if history[i].Return >= history[j].Call && history[j].Return >= history[i].Call {
+					overlaps++
+				}
+			}
+		}
+		res := porcupine.CheckOperationsTimeout(c37LinModel(w), history, 2*time.Second)
+		switch res {
+		case porcupine.Illegal:
+			c.Fail("not-linearizable", "parallel", "the history of %d operations by %d goroutines scheduled at the table lock (%d overlapping pairs) has no linearization against the routing-table model", len(history), ntasks, overlaps)
+		case porcupine.Unknown:
+			c.Probe("lin_timeout")
+		default:
+			c.Probe("lin_checked_parallel")
+		}
+		c.Logf("parallel history of %d operations, %d overlapping pairs: checked", len(history), overlaps)
+		c.State("par", w.bs, len(tb.rt.Buckets), tb.rt.Size())
+		if len(tb.rt.Buckets) > 1 && overlaps > 0 {
+			c.NonTrivial()
+		}
+	})
+}
+
+func c37LinModel(w *c37World) porcupine.Model {
+	return porcupine.Model{
+		Init: func() interface{} { return c37Model{nb: 1} },
+		Step: func(state, input, output interface{}) (bool, interface{}) {
+			m, in, out := state.(c37Model), input.(c37In), output.(c37Out)
+			switch in.kind {
+			case 0:
+				ok, next := w.update(m, in.peer)
+				return ok == out.ok, next
+			case 1:
+				m.mask &^= 1 << uint(in.peer)
+				return true, m
+			case 2:
+				return w.nearestOK(m, in.target, in.count, out.got) == "", m
+			case 3:
+				return out.ok == (m.mask&(1<<uint(in.peer)) != 0), m
+			default:
+				return out.n == w.size(m), m
+			}
+		},
+		Equal: func(a, b interface{}) bool { return a.(c37Model) == b.(c37Model) },
 	}
 }
